@@ -41,6 +41,11 @@ type bufCase struct {
 // WriteString instead of Write and TakeRedactableBytes instead of
 // TakeRedactableString; bit 1 inserts accessor calls after every operation.
 func applyBOp(b *buffer.Buffer, o BOp, variant int) (taken []byte, isTake bool) {
+	if variant&4 != 0 && (o.Op == "W" || o.Op == "WB" || o.Op == "WR") {
+		// the way builder.StringBuilder drives the buffer: the mode is set before every write,
+		// also when it does not change (a no-op by the contract of SetMode)
+		b.SetMode(b.GetMode())
+	}
 	switch o.Op {
 	case "W":
 		if variant&1 == 0 {
@@ -108,14 +113,41 @@ func runBufHistory(h []BOp, variant int) (st lib.BufState, out []byte, acc accRe
 				panicked = fmt.Sprint(r)
 			}
 		}()
+		// every string handed out earlier is kept (the very value, which may alias the buffer's
+		// backing array) next to a private copy; later writes must never change it (C13)
+		type kept struct {
+			at   int
+			live string
+			copy string
+		}
+		var earlier []kept
+		keep := func(i int, s string) { earlier = append(earlier, kept{i, s, string(append([]byte(nil), s...))}) }
+		defer func() {
+			for _, k := range earlier {
+				if k.live != k.copy {
+					accImpure = fmt.Sprintf("the string obtained at op %d changed from %q to %q by later operations", k.at, k.copy, k.live)
+				}
+			}
+		}()
 		for i, o := range h {
 			var before []byte
 			if o.Op == "TK" {
 				before = []byte(b.RedactableString())
 			}
-			taken, isTake := applyBOp(&b, o, variant)
+			var taken []byte
+			var isTake bool
+			if o.Op == "TK" && variant&1 == 0 {
+				s := string(b.TakeRedactableString()) // string(x) of a string type does not copy: the alias is kept
+				keep(i, s)
+				taken, isTake = []byte(s), true
+			} else {
+				taken, isTake = applyBOp(&b, o, variant)
+			}
 			if isTake && !bytes.Equal(taken, before) {
 				accImpure = fmt.Sprintf("op %d: Take returned %q but RedactableString said %q", i, taken, before)
+			}
+			if variant&2 != 0 && i%2 == 0 {
+				keep(i, string(b.RedactableString()))
 			}
 			if variant&2 != 0 {
 				pre := lib.ReadBuf(&b)
@@ -271,11 +303,19 @@ func bufferReplay(args []string) {
 			return
 		}
 		rep.AddReplayed(1)
-		var outs [4][]byte
-		for variant := 0; variant < 4; variant++ {
+		var outs [6][]byte
+		for variant := 0; variant < 6; variant++ {
 			st, out, acc, panicked, imp := runBufHistory(ln.H, variant)
 			outs[variant] = out
 			rep.AddEval(1)
+			if variant >= 4 {
+				// variants 4, 5: variants 0, 1 with SetMode(current mode) before every write
+				if panicked == "" && outs[variant-4] != nil && !bytes.Equal(out, outs[variant-4]) && (*prop == "C10" || *prop == "C09" || *prop == "C13" || *prop == "ALL") {
+					rep.Violate("buffer:setmode-noop", fmt.Sprintf("with SetMode(current mode) before every write the result is %q instead of %q", out, outs[variant-4]), bufCase{"buffer", ln.H, variant})
+				}
+				judgeBuffer(rep, *prop, ln.H, variant, st, out, acc, panicked, imp)
+				continue
+			}
 			judgeBuffer(rep, *prop, ln.H, variant, st, out, acc, panicked, imp)
 			if panicked != "" {
 				continue
